@@ -8,7 +8,7 @@
     configurations every run (harness e2e). *)
 From FV Require Import Base.Serial Frame.SessionSplit Link.Receiver Proofs.SessionSplitProofs Proofs.ReceiverProofs Proofs.EndToEnd Proofs.Stream.
 From Coq Require Import List.
-From FV Require Import Base.Bytes Codec.Value Codec.Composite Codec.CompositeSpec Frame.Transfer Frame.AmqpFrame Frame.TransferWire Proofs.FrameProofs Proofs.TransferWireProofs.
+From FV Require Import Base.Bytes Codec.Value Codec.Composite Codec.CompositeSpec Frame.Transfer Frame.AmqpFrame Frame.TransferWire Proofs.FrameProofs Proofs.TransferWireProofs Link.FromWire Proofs.FromWireProofs.
 Import ListNotations.
 Open Scope N_scope.
 
@@ -85,3 +85,35 @@ Theorem C01_wire_transfer_read_back :
          map (dec_frame fuel) chunks = map (@Ok frame) (expected_frames ch vs first mids last)).
 Proof. exact transfer_wire_decodes. Qed.
 Print Assumptions C01_wire_transfer_read_back.
+
+(** ** the whole chain for a delivery that does not fit one frame
+
+    sending transport (encode_transfer with the typed layer's performatives, laid out as C06 proves)
+    -> the bytes of every frame -> receiving FrameDecoder -> the fields the receiving link reads
+    ([xfer_of_frame]: delivery-id, tag, format, settled, more, rcv-settle-mode, aborted, payload)
+    -> receiving link inside recv() with credit: nothing is handed over before the last frame, the last
+    frame hands over exactly one delivery whose bytes are the payload, with the delivery-id and tag the
+    sender put on the first frame; one credit is used.  For every channel, handle, delivery-id, tag,
+    message-format, delivery state, payload and frame limit.  (The other outcome the receiving-link
+    model has, the error for rcv-settle-mode second on a link negotiated as first, cannot occur for
+    these frames - they carry no rcv-settle-mode - but is kept as stated by C10_reassembly.) *)
+Theorem C01_wire_to_delivery :
+  forall m ch h d tb f st rs b payload p chunks fuel s,
+    let vs := [h; VUint d; VBinary tb; VUint f; VNull; VBool false; VNull; st; rs; VBool false; b] in
+    ch < 65536 -> fields_ok (s_fields transfer_schema) vs = true ->
+    Forall (fun v => (depth v <= fuel)%nat) vs -> (1 <= fuel)%nat ->
+    transfer_perfs vs = Some p ->
+    transfer_layout m ch p payload chunks ->
+    m - 4 < lenN (p_single p) + lenN payload ->
+    r_waiting s = true -> r_queue s = [] -> r_inc s = None -> 1 <= r_credit s ->
+    exists frames xs,
+      map (dec_frame fuel) chunks = map (@Ok frame) frames /\
+      map xfer_of_frame frames = map (@Some xfer) xs /\
+      let r := rrun s (map EXfer xs) in
+      exists info res,
+        concat (removelast (snd r)) = [] /\ last (snd r) [] = [res] /\
+        (res = ORecv info (Some f) payload \/ res = ORecvErr EIllegalRsm) /\
+        d_id info = d /\ d_tag info = from_be tb /\
+        r_inc (fst r) = None /\ r_credit (fst r) = r_credit s - 1 /\ r_dc (fst r) = wadd (r_dc s) 1.
+Proof. exact wire_to_delivery. Qed.
+Print Assumptions C01_wire_to_delivery.
